@@ -125,6 +125,7 @@ ALPHABETS = {
     'with-empty': lambda i: '' if i == 0 else 'x%d' % i,
     'numeric-spellings': lambda i: ['7', '07', '7.0', '+7', '1e3', '1000', '10', '9', '-1', '0.5', '.5', ' 7', '7 ', '0x10', '1_000'][i % 15] + ('' if i < 15 else '%d' % i),
     'zero-padded-digits': lambda i: ['7', '07', '007', '0', '00', '10', '010', '\u0667', '70', '0070'][i % 10] + ('' if i < 10 else '%d' % i),
+    'missing-symbols': lambda i: ['', '{}', 'NA', 'a', 'b', 'None', 'nan', ' '][i % 8] + ('' if i < 8 else '%d' % i),
     'punct': lambda i: [',', '"', "'", ';', '|', ':', '-', '&', '{}', 'AND'][i % 10] + ('' if i < 10 else str(i)),
 }
 
